@@ -61,9 +61,7 @@ def query (c : Table) : Sexp → Option Sexp
     some (.list [putOut (RenderMarker c id v), putSpec (specMarker c id v)])
   | _ => none
 
-def devs : List Dev :=
-  [{ padBytes := true }, { zeroEmpty := true }, { absFallback := true }, { extUnknownPlain := true },
-   { padBytes := true, zeroEmpty := true, absFallback := true, extUnknownPlain := true }]
+def devs : List Dev := [{ extUnknownPlain := true }]
 
 /-- the specification with each known deviation switched on (to name an observed deviation) -/
 def variants (c : Table) : Sexp → Option Sexp
